@@ -380,6 +380,7 @@ def rule_cropshared(ctx):
 
 
 RULES = [
+    ("C12.VOCAB", 5, common.shared("c11", "rule_vocab", "C12.VOCAB")),
     ("C12.DHDFORM", 3, common.shared("c02", "rule_dhdform", "C12.DHDFORM")),
     ("C12.MERGELOOKUP", 4, common.shared("c13", "rule_mergelookup", "C12.MERGELOOKUP")),
     ("C12.DTYPEFLOW", 3, common.rule_dtypeflow("C12.DTYPEFLOW")),
